@@ -107,3 +107,329 @@ def c02_2(R):
         b = R.body(name)
         n += check_registered(R, b, "pending-registered:" + name.split("::")[-1], own)
     R.floor("Pending exit states in the four poll fns", n, 5)
+
+
+# ------------------------------------------------------------------------------------------------
+TIMERS = "stream_dispatch::Timers"
+
+
+def timer_fields(F):
+    adt = F.adt(TIMERS)
+    if adt is None:
+        return None
+    return ["Timers." + f["name"] for f in adt["variants"][0]["fields"] if f["ty"].startswith("stream_dispatch::Timer<")]
+
+
+def timer_calls(F, method, field):
+    """call sites of Timer::<method> whose receiver is Timers.<field>"""
+    out = []
+    for b in F.bodies(lambda n: "stream_dispatch" in n):
+        for t in b.calls():
+            if call_matches(t, ("stream_dispatch::Timer::" + method,)) and t.args:
+                tr = trace(b, t.args[0])
+                if tr.last_field == field:
+                    out.append((b, t))
+    return out
+
+
+@rule("C02.3", ["C02", "C07"], ["E1"], "every protocol timer feeds the re-poll deadline and is armed and checked somewhere",
+      "Every field of Timers of type Timer<_> is read through Timer::poll_at inside next_timer_to_poll (directly or via take()); each has >= 1 arm/set site and >= 1 expired site "
+      "(recovery_pipe_expiry is audited as re-poll-only: its expiry only needs to cause a poll).")
+def c02_3(R):
+    F = R.facts
+    tf = timer_fields(F)
+    R.require(tf is not None and len(tf) >= 5, "struct Timers with >= 5 Timer<_> fields")
+    ntp = R.body(VS + "::next_timer_to_poll")
+    polled = set()
+    for t in ntp.calls():
+        if call_matches(t, ("stream_dispatch::Timer::poll_at",)):
+            tr = trace(ntp, t.args[0])
+            if tr.last_field in tf:
+                polled.add(tr.last_field)
+            elif tr.kind == "call" and call_matches(tr.root[1], ("stream_dispatch::Timer::take",)):
+                tr2 = trace(ntp, tr.root[1].args[0])
+                if tr2.last_field in tf:
+                    polled.add(tr2.last_field)
+    # which of them are polled on the path that is taken when the transport is NOT pending (the common path)?
+    for f in tf:
+        if f in polled:
+            R.ok("timer-polled:" + f, ntp.name, "poll_at() feeds next_timer_to_poll")
+        else:
+            R.fail([ntp.name, "timer-not-in-deadline", f], "timer %s is never read by next_timer_to_poll: its expiry cannot wake the connection task" % f, where=ntp.where(), instance="timer-polled:" + f)
+        arms = timer_calls(F, "arm", f) + timer_calls(F, "set", f)
+        exps = timer_calls(F, "expired", f)
+        if not arms:
+            R.fail(["timer-never-armed", f], "timer %s has no arm/set site" % f, instance="timer-armed:" + f)
+        else:
+            R.ok("timer-armed:" + f, ",".join(sorted({owner_fn(b).split("::")[-1] for b, _ in arms})), "%d arm/set sites" % len(arms))
+        if f == "Timers.recovery_pipe_expiry":
+            R.ok("timer-checked:" + f, "audited", "re-poll-only timer: expiry only has to trigger a poll (calc_pipe is recomputed on every ACK batch)")
+        elif not exps:
+            R.fail(["timer-never-checked", f], "timer %s has no expired() site" % f, instance="timer-checked:" + f)
+        else:
+            R.ok("timer-checked:" + f, ",".join(sorted({owner_fn(b).split("::")[-1] for b, _ in exps})), "%d expired() sites" % len(exps))
+    # the min over all five is what is returned on the not-transport-pending path
+    R.floor("timers polled in next_timer_to_poll", len(polled), 5)
+
+
+def send_data_closures(R):
+    F = R.facts
+    out = []
+    for b in F.closures_of(VS + "::send_tx_queue"):
+        if any(call_matches(t, ("UtpSocket::try_poll_send_to_vectored",)) for t in b.calls()):
+            out.append(b)
+    return out
+
+
+def must_call_before_exits(R, body, instance, is_call, exit_pred, what, key_extra=()):
+    """E3 must-pass-through: every exit whose class satisfies exit_pred has passed a call matching is_call"""
+    from utpsa.wake import ret_class_of
+
+    def step(it, s):
+        done, cls = s
+        ch = False
+        c = ret_class_of(body, it)
+        if c is not None and c != cls:
+            cls = c
+            ch = True
+        if not done and isinstance(it, Term) and it.kind == "call" and is_call(body, it):
+            done = True
+            ch = True
+        return (done, cls) if ch else None
+
+    res = typestate(body, [(False, None)], step)
+    n = 0
+    bad = None
+    for bb, states in res.exits.items():
+        for s in states:
+            if exit_pred(s[1]):
+                n += 1
+                if not s[0] and bad is None:
+                    bad = (bb, s)
+    if n == 0:
+        R.fail([owner_fn(body), "no-exit-of-class", what], "%s: no exit of the expected class found (anchor drift)" % body.name, where=body.where(), instance=instance)
+        return 0
+    if bad:
+        R.fail([owner_fn(body)] + list(key_extra) + ["exit-without", what], "%s: an exit of the selected class is reachable without %s" % (body.name, what), where=body.where(),
+               witness=res.witness_lines(*bad), instance=instance)
+    else:
+        R.ok(instance, body.name, "%s on all %d selected exit states" % (what, n))
+    return n
+
+
+@rule("C02.4", ["C02", "C06"], ["E3", "E1"], "(re)transmission arms the retransmission timer",
+      "Each of the ST_DATA send closures (send_data! expansions) returns Ok(true) only after timers.retransmit.arm(..); maybe_send_fin returns Ok(true) only after arming it; "
+      "the RTO path increments rto_retransmissions only after timers.retransmit.arm(.., restart = true); timers.retransmit.turn_off is called only at the three audited sites.")
+def c02_4(R):
+    F = R.facts
+
+    def arm_rto(body, t):
+        return call_matches(t, ("stream_dispatch::Timer::arm",)) and trace(body, t.args[0]).last_field == "Timers.retransmit"
+
+    cl = send_data_closures(R)
+    R.floor("send_data! expansions", len(cl), 3)
+    for i, b in enumerate(cl):
+        must_call_before_exits(R, b, "data-sent=>rto-armed", arm_rto, lambda c: c == "Ok(const:1)", "arm(Timers.retransmit)", key_extra=["send_data"])
+    msf = R.body(VS + "::maybe_send_fin")
+    must_call_before_exits(R, msf, "fin-sent=>rto-armed", arm_rto, lambda c: c == "Ok(const:1)", "arm(Timers.retransmit)")
+    # RTO path: rto_retransmissions += 1 dominated by arm(restart=true)
+    stq = R.body(VS + "::send_tx_queue")
+    incs = [s for s in stq.stmts() if (lambda fu: fu and fu.field == "VirtualSocket.rto_retransmissions" and fu.op == "+=")(field_update(stq, s))]
+    R.floor("rto_retransmissions += 1 sites", len(incs), 1)
+    arm_blocks = [t.bb for t in stq.calls() if arm_rto(stq, t) and t.args[3].kind == "const" and t.args[3].scalar == 1]
+    ok, bad = must_pass_blocks(stq, [s.bb for s in incs], set(arm_blocks))
+    if ok and arm_blocks:
+        R.ok("rto-send=>restart-arm", stq.name, "rto_retransmissions += 1 is dominated by retransmit.arm(restart=true)")
+    else:
+        R.fail([stq.name, "rto-retransmission-without-restart-arm"], "RTO retransmission is counted without re-arming the retransmit timer with restart=true (back-off would never take effect)", where=incs[0].where() if incs else stq.where(), instance="rto-send=>restart-arm")
+    # FIN RTO path: the three on_rto calls are followed by arm(restart=true): checked in C06.5
+    offs = timer_calls(F, "turn_off", "Timers.retransmit")
+    allowed = {VS + "::send_tx_queue", VS + "::split_tx_queue_into_segments", VS + "::process_all_incoming_messages"}
+    for b, t in offs:
+        fn = owner_fn(b)
+        if fn in allowed:
+            R.ok("rto-turn_off-sites", fn, "audited turn_off site")
+        else:
+            R.fail([fn, "turn_off(Timers.retransmit)"], "retransmit timer turned off at an unaudited site", where=t.where(), instance="rto-turn_off-sites")
+    R.floor("retransmit.turn_off sites", len(offs), 3)
+
+
+@rule("C02.5", ["C02", "C08"], ["E3"], "the dispatcher registers on the reader channel before sleeping",
+      "Every non-error exit of UserRx::flush (which dominates the final Pending of poll, C02.6) has passed update_optional_waker(UserRxSharedLocked.dispatcher_waker, cx): "
+      "otherwise a reader that is dropped (or reads) while the dispatcher sleeps wakes nobody.")
+def c02_5(R):
+    b = R.body("stream_rx::UserRx::flush")
+
+    def reg(body, t):
+        return call_matches(t, ("utils::update_optional_waker",)) and trace(body, t.args[0]).last_field == "UserRxSharedLocked.dispatcher_waker"
+    from utpsa.wake import ret_class_of
+
+    def step(it, s):
+        done, cls = s
+        ch = False
+        c = ret_class_of(b, it)
+        if c is not None and c != cls:
+            cls, ch = c, True
+        if not done and isinstance(it, Term) and it.kind == "call" and reg(b, it):
+            done, ch = True, True
+        return (done, cls) if ch else None
+    res = typestate(b, [(False, None)], step)
+    bad = None
+    n = 0
+    for bb, states in res.exits.items():
+        for s in states:
+            if not_error_exit(s[1]):
+                n += 1
+                if not s[0] and bad is None:
+                    bad = (bb, s)
+    nreg = sum(1 for t in b.calls() if reg(b, t))
+    R.floor("registration sites of UserRxSharedLocked.dispatcher_waker in flush", nreg, 1)
+    if bad:
+        R.fail([b.name, "exit-without-registering(UserRxSharedLocked.dispatcher_waker)"],
+               "UserRx::flush can return without registering the dispatcher's waker on the reader channel (it registers only when the window is nearly closed): a reader dropped last on an idle connection wakes nobody",
+               where=b.where(), witness=res.witness_lines(*bad), instance="flush-registers-dispatcher")
+    else:
+        R.ok("flush-registers-dispatcher", b.name, "registered on all %d non-error exits" % n)
+
+
+STAGES = [
+    ("maybe_send_syn_ack", ("VirtualSocket::maybe_send_syn_ack",)),
+    ("process_all_incoming_messages", ("VirtualSocket::process_all_incoming_messages",)),
+    ("user_rx.flush", ("stream_rx::UserRx::flush",)),
+    ("inactivity-check", None),
+    ("split_tx_queue_into_segments", ("VirtualSocket::split_tx_queue_into_segments",)),
+    ("send_tx_queue", ("VirtualSocket::send_tx_queue",)),
+    ("maybe_send_fin", ("VirtualSocket::maybe_send_fin",)),
+    ("maybe_send_ack", ("VirtualSocket::maybe_send_ack",)),
+]
+
+
+def poll_final_pending(R, poll):
+    """the Pending exit(s) that are not the transport-pending early returns: dominated by next_timer_to_poll"""
+    ntp = [t.bb for t in poll.calls() if call_matches(t, ("VirtualSocket::next_timer_to_poll",))]
+    R.require(len(ntp) >= 1, "call to next_timer_to_poll in poll")
+    dom = poll.dominators()
+    pend = [s for s in poll.stmts() if s.place.local == 0 and s.place.is_local and s.rv.kind == "agg" and s.rv.j.get("variant") == "Pending"]
+    final = [s for s in pend if any(n in dom.get(s.bb, ()) for n in ntp)]
+    return pend, final, ntp
+
+
+@rule("C02.6", ["C02", "C07", "C03"], ["E2"], "the dispatcher never sleeps without having run every stage, in order",
+      "The final Poll::Pending of VirtualSocket::poll is dominated by calls to maybe_send_syn_ack, process_all_incoming_messages, user_rx.flush, the remote-inactivity check, "
+      "split_tx_queue_into_segments, send_tx_queue, maybe_send_fin and maybe_send_ack, each dominating the next; every other Pending exit is control-dependent on this_poll.transport_pending = true; "
+      "after next_timer_to_poll() = Some the sleep is armed (Timers::arm_in) or the task self-wakes.")
+def c02_6(R):
+    poll = R.body(VS + "::poll")
+    pend, final, ntp = poll_final_pending(R, poll)
+    R.require(len(final) >= 1, "final Pending in poll")
+    dom = poll.dominators()
+    stage_bbs = []
+    for name, callees in STAGES:
+        if callees is None:
+            bbs = [t.bb for t in poll.calls() if call_matches(t, ("stream_dispatch::Timer::expired",)) and trace(poll, t.args[0]).last_field == "Timers.remote_inactivity_timer"]
+        else:
+            bbs = [t.bb for t in poll.calls() if call_matches(t, callees)]
+        stage_bbs.append((name, bbs))
+    prev = None
+    for name, bbs in stage_bbs:
+        if not bbs:
+            R.fail([poll.name, "stage-missing", name], "poll no longer calls stage %s" % name, where=poll.where(), instance="stage:" + name)
+            continue
+        okdom = all(any(b in dom.get(f.bb, ()) for b in bbs) for f in final)
+        okorder = prev is None or any(any(p in dom.get(b, ()) for p in prev[1]) for b in bbs)
+        if okdom and okorder:
+            R.ok("stage:" + name, poll.name, "dominates the final Pending" + ("" if prev is None else " and is dominated by " + prev[0]))
+        elif not okdom:
+            path = shortest_path(poll, 0, [final[0].bb], removed_blocks=set(bbs))
+            R.fail([poll.name, "stage-skippable", name], "the final Pending of poll is reachable without running stage %s" % name, where=final[0].where(), witness=path_lines(poll, path), instance="stage:" + name)
+        else:
+            R.fail([poll.name, "stage-order", prev[0] + "<" + name], "stage %s is no longer dominated by stage %s (stages reordered)" % (name, prev[0]), where=poll.where(), instance="stage:" + name)
+        prev = (name, bbs)
+    # the other Pending exits: only under transport_pending = true
+    tp_edges = set()
+    for blk in poll.blocks:
+        if blk.cleanup or blk.term.kind != "switch":
+            continue
+        c, neg = switch_cond(poll, blk.term)
+        if c.kind == "field" and c.trace.last_field == "ThisPoll.transport_pending":
+            be = bool_edges(poll, blk.idx)
+            if be:
+                tp_edges.add((blk.idx, be[0] if neg else be[1]))
+    others = [s for s in pend if s not in final]
+    for s in others:
+        ok, bad = must_pass_edges(poll, [s.bb], tp_edges)
+        if ok:
+            R.ok("early-pending=>transport_pending", "%s line-of-stage %s" % (poll.name, poll.src_line(s.loc)[:50]), "guarded by this_poll.transport_pending = true (transport registered the waker)")
+        else:
+            path = shortest_path(poll, 0, [s.bb], removed_edges=tp_edges)
+            R.fail([poll.name, "early-Pending-not-guarded-by-transport_pending"], "a Poll::Pending exit of poll is reachable without transport_pending being true and without arming the sleep", where=s.where(), witness=path_lines(poll, path), instance="early-pending=>transport_pending")
+    R.floor("early Pending exits in poll", len(others), 5)
+    # sleep arming
+    from utpsa.wake import variant_of_edge
+
+    def step(it, s):
+        if isinstance(it, Term) and it.kind == "call":
+            if call_matches(it, ("VirtualSocket::next_timer_to_poll",)):
+                return "asked"
+            if call_matches(it, ("stream_dispatch::Timers::arm_in",)) and s == "need-arm":
+                return "armed?"
+            if call_matches(it, ("Waker::wake_by_ref",)) and s in ("need-self-wake", "need-arm"):
+                return "ok"
+        return None
+
+    def edge(term, tgt, label, s):
+        if term.kind != "switch":
+            return None
+        if s == "asked":
+            c, var = variant_of_edge(poll, term, label)
+            if c is not None and c.trace.kind == "call" and call_matches(c.trace.root[1], ("VirtualSocket::next_timer_to_poll",)):
+                if var == "Some":
+                    return ["need-arm"]
+                return ["ok-no-timer"]
+        if s == "armed?":
+            c, neg = switch_cond(poll, term)
+            if c.kind == "call" and call_matches(c.call, ("stream_dispatch::Timers::arm_in",)):
+                be = bool_edges(poll, term.bb)
+                truthy = (tgt == be[1]) != neg
+                return ["ok"] if truthy else ["need-self-wake"]
+        return None
+    res = typestate(poll, ["start"], step, edge, stop_blocks={f.bb for f in final})
+    badst = set()
+    for bb, states in res.exits.items():
+        if bb in {f.bb for f in final}:
+            for s in states:
+                if s not in ("ok", "ok-no-timer"):
+                    badst.add((bb, s))
+    if badst:
+        bb, s = sorted(badst)[0]
+        R.fail([poll.name, "sleep-not-armed", s], "poll returns its final Pending after next_timer_to_poll()=Some without arming the sleep or self-waking (state %s)" % s, where=final[0].where(), witness=res.witness_lines(bb, s), instance="deadline=>sleep-armed")
+    else:
+        R.ok("deadline=>sleep-armed", poll.name, "next_timer_to_poll()=Some => arm_in()=true or wake_by_ref before the final Pending")
+
+
+@rule("C02.8", ["C02", "C03"], ["E2"], "liveness timers are not switched off while accepted bytes remain",
+      "A site that turns off timers.retransmit together with timers.remote_inactivity_timer must be control-dependent on 'the TX ring is empty' (this_poll.unsegmented_data / the ring's slices), "
+      "not merely on 'no segments': with a zero peer window the ring holds accepted bytes while no segment exists.")
+def c02_8(R):
+    F = R.facts
+    from utpsa.flow import controlling_edges, describe_cond
+    sites = 0
+    for b in F.bodies(lambda n: n.startswith(VS)):
+        offs_r = [t for t in b.calls() if call_matches(t, ("stream_dispatch::Timer::turn_off",)) and trace(b, t.args[0]).last_field == "Timers.retransmit"]
+        offs_i = [t for t in b.calls() if call_matches(t, ("stream_dispatch::Timer::turn_off",)) and trace(b, t.args[0]).last_field == "Timers.remote_inactivity_timer"]
+        dom = b.dominators()
+        for r in offs_r:
+            both = [i for i in offs_i if r.bb in dom.get(i.bb, ()) or i.bb in dom.get(r.bb, ())]
+            if not both:
+                continue
+            sites += 1
+            conds = [describe_cond(b, t, lab) for t, tgt, lab in controlling_edges(b, r.bb)]
+            ring = [c for c in conds if "ThisPoll.unsegmented_data" in c or "as_slices" in c or "Observer::is_empty" in c or "occupied_len" in c]
+            seg = sorted(c for c in conds if "Segments::is_empty" in c or "our_fin_if_unacked" in c or "is_none" in c)
+            if ring:
+                R.ok("both-liveness-timers-off=>ring-empty", owner_fn(b), "guarded by " + ",".join(ring))
+            else:
+                R.fail([owner_fn(b), "turn_off(retransmit+remote_inactivity_timer)", "guards=" + ",".join(seg), "missing=tx-ring-empty"],
+                       "both liveness timers are switched off under {%s} without checking that the TX ring is empty: with peer window 0 and a lost window update every timer is idle and the connection is silent forever" % ", ".join(seg),
+                       where=r.where(), instance="both-liveness-timers-off=>ring-empty")
+    R.floor("sites turning off both liveness timers", sites, 1)
